@@ -246,6 +246,9 @@ type TimingOpts struct {
 	// NoAddrAttribution turns off the per-wavefront attribution of data addresses (one dword per work-item in
 	// every buffer), which only the C14 kernels guarantee; generated programs may use other strides.
 	NoAddrAttribution bool
+	// NoReadAttribution: only vector WRITES are attributed to wavefronts by address (kernels whose wavefronts all
+	// read the same input lines, e.g. gathers; every wavefront still writes only its own work-items' slots).
+	NoReadAttribution bool
 	// SlowScalar/SlowVector/SlowInst > 0: that memory takes one request per so many cycles (sustained
 	// back-pressure: the CU's port buffer and the unit's own queues fill). Horizon overrides the cycle horizon.
 	SlowScalar, SlowVector, SlowInst int
@@ -415,7 +418,7 @@ func RunTiming(x *explore.Exec, k *Kernel, g Geometry, o TimingOpts) (res *Resul
 					return
 				}
 				data := append([]byte{}, memory[r.Address:r.Address+r.AccessByteSize]...)
-				if vector {
+				if vector && !o.NoReadAttribution {
 					if key, ok := wfOfAddr(r.Address); ok {
 						vecOutstanding[key]++
 						f2k[r.ID] = key
